@@ -27,6 +27,24 @@ NoTransientFlags(s) ==
   \A an \in DOMAIN s.accts :
      ~Bit(s.accts[an].flags, ACC_FLASHLOAN) /\ ~Bit(s.accts[an].flags, ACC_RECEIVERSHIP) /\ ~Bit(s.accts[an].flags, ACC_DELEVERAGE)
 
+\* C12 ("a forced deleverage is bracketed like a liquidation"): the shape of every committed transaction that contains a
+\* deleverage start, and no account left under the risk admin's control
+C12Bracket(pre, e, post, line) ==
+  (IsProgramEvent(e) /\ Ok(e)) =>
+    LET L == IxList(e) starts == {i \in DOMAIN L : L[i].op = "start_delev"} IN
+    (starts # {}) =>
+      LET i == CHOOSE x \in starts : \A y \in starts : x <= y
+          an == L[i].acct
+          n == Len(L)
+      IN /\ Chk("C12", "deleverage_is_bracketed_like_a_liquidation", line,
+                /\ Cardinality(starts) = 1 /\ ~IsCpi(L[i]) /\ i < n
+                /\ \A k \in 1..(i - 1) : PreStartOk(L[k])
+                /\ L[n].op = "end_delev" /\ L[n].acct = an /\ ~IsCpi(L[n])
+                /\ \A k \in (i + 1)..(n - 1) : InsideOk(L[k]) /\ (Has(L[k], "acct") => L[k].acct = an),
+                [acct |-> an, start_at |-> i, len |-> n, starts |-> Cardinality(starts)])
+         /\ Chk("C12", "deleverage_leaves_no_marker_on_any_account", line,
+                \A x \in DOMAIN post.accts : ~Bit(post.accts[x].flags, ACC_RECEIVERSHIP) /\ ~Bit(post.accts[x].flags, ACC_DELEVERAGE), [acct |-> an])
+
 C10(pre, e, post, line) ==
   /\ (IsProgramEvent(e) /\ Ok(e)) =>
        /\ Chk("C10", "receivership_marker_never_survives_a_transaction", line,
